@@ -5,7 +5,7 @@ import Dawgs.Spec.C04
 Suite `c04`: input line = the harness answer `(r (site "…") (tmpl "…") (kind k) (hraw "…") (braw "…") (hval "…")
 (bval "…") (h res) (b res) (fc res))`; answer = the monitor's verdict (`ok <class> …` / `reject <class> …`).
 Suite `c04q`: input line `q "<json string>"`; answer = the model's pgQuote / encode / unescapeKey / decode
-results hex-encoded in the harness's format, plus the lexer round trip `rt`. -/
+results and the identifier emitter's (`formatIdentifier`) output, hex-encoded in the harness's format, plus the lexer round trip `rt`. -/
 namespace Driver.C04
 open Dawgs.C04 Dawgs.C04.Spec Driver
 
@@ -98,7 +98,7 @@ def stepQ (_ : Unit) (ts : List String) : Unit × String :=
     | some [.atom "q", .str str] =>
       let s := str.toList
       let rt := if lexFast (pgQuote s) == [Tok.str s] then 1 else 0
-      ((), s!"pgq={hexOf (pgQuote s)} enc={hexOf (encode s)} key={hexOf (unescapeKey s)} keyrt={hexOf (unescapeKey (escapeKeyBt s))} dec={decField s} rt={rt}")
+      ((), s!"pgq={hexOf (pgQuote s)} ident={hexOf (emitIdent s)} enc={hexOf (encode s)} key={hexOf (unescapeKey s)} keyrt={hexOf (unescapeKey (escapeKeyBt s))} dec={decField s} rt={rt}")
     | _ => ((), "bad-op")
   | _ => ((), "bad-op")
 
